@@ -48,7 +48,14 @@ soft; the Gaussian / Butterworth filter entries and their parameters one at a ti
 through cfg["obj_constraints"]), optimiser type / learning rate / set of optimised models, scheduler, a full-batch batch size,
 the loss type, an explicit reset=False, a device (harness/c05_stage.py).  The same call goes to the uninterrupted run, to the
 continued copy and to the live original.  case["blind"]: nothing is read from any object between the checkpoint and the next
-call (the checkpoint is taken and everybody simply carries on); the reported-state clause is then not judged for that case."""
+call (the checkpoint is taken and everybody simply carries on); the reported-state clause is then not judged for that case.
+
+Round 8: STAGE-1 CONSTRAINT DICTIONARIES WITH NON-DEFAULT VALUES.  cfg["cons1"] = {"object": {...}, "probe": {...}, "dataset": {...}}:
+non-default values of the entries of the three DEFAULT_CONSTRAINTS handed to the FIRST call (harness/c05_stage.CONS1 / gen_cons1), in
+the forms that flip the truthiness of the default (False / 0 / 0.0 over a truthy default; True / 1 / a positive number over False / 0 /
+None).  The continuation carries no `constraints=` (relies on them being carried over), passes the same dictionaries again with every call
+(stage kind "cons/repass_stage1"), or is a round-7 staged call.  The constraint dictionaries are compared entry by entry
+(c05_toy.constraints_diff)."""
 from __future__ import annotations
 
 import json
@@ -207,6 +214,24 @@ def corpus_cases():
         # loss type and (full-batch) batch size
         dict(cfg=base_cfg(opt="adamw", sched="plateau"), n=4, k=1, via="clone_fallback", blind=True,
              stage=[{"kind": "loss_type", "loss_type": "l1_intensity", "batch": [1, 3]}]),
+        # ---- round 8: stage-1 constraint dictionaries with non-default values (falsy over a truthy default and vice versa)
+        # on every model; the continuation relies on them being carried over / passes them again
+        dict(cfg=base_cfg(optimise=["object", "probe", "dataset"], opt="adam", sched="none", obj_type="potential",
+                          cons1={"object": {"positivity": False, "fix_potential_baseline": True,
+                                            "fix_potential_baseline_factor": 0, "tv_weight_xy": 0.01, "butterworth_order": 0},
+                                 "probe": {"orthogonalize_probe": 0, "center_probe": True},
+                                 "dataset": {"clip_scan_positions": False, "center_scan_positions": True,
+                                             "descan_tv_weight": 0.01}}), n=5, k=2, via="zip"),
+        dict(cfg=base_cfg(opt="sgd_momentum", sched="exp", num_probes=2, num_slices=2,
+                          cons1={"object": {"positivity": 0, "identical_slices": True, "gaussian_sigma": 0.5,
+                                            "q_lowpass": 0.6, "butterworth_order": 2, "apply_fov_mask": True},
+                                 "probe": {"orthogonalize_probe": True, "tv_weight": 0.02},
+                                 "dataset": {"clip_scan_positions": 0, "center_scan_positions": 1}}), n=4, k=2, via="clone",
+             stage=[{"kind": "cons/repass_stage1", "constraints": {
+                 "object": {"positivity": 0, "identical_slices": True, "gaussian_sigma": 0.5, "q_lowpass": 0.6,
+                            "butterworth_order": 2, "apply_fov_mask": True},
+                 "probe": {"orthogonalize_probe": True, "tv_weight": 0.02},
+                 "dataset": {"clip_scan_positions": 0, "center_scan_positions": 1}}}]),
     ]
     from ..common import VERIF
     p = VERIF / "corpus" / "C05" / "corpus.json"
@@ -215,10 +240,16 @@ def corpus_cases():
     return out
 
 
+def T_constraints(cfg):
+    """the constraint dictionaries the first call of a run hands to reconstruct() (as plain JSON data)"""
+    from ..c05_toy import constraints
+    return {m: dict(d) for m, d in constraints(cfg).items()}
+
+
 def gen_cases(ctx: Ctx):
     r = ctx.rng
     cases = corpus_cases()
-    n_gen = ctx.budget(43, 640)
+    n_gen = ctx.budget(38, 640)
 
     def cyc(vals):
         vals = list(vals)
@@ -250,9 +281,15 @@ def gen_cases(ctx: Ctx):
     r5_shift, n_saving = r.randrange(0, 14), 0
     # round 7: staged runs (every third generated case): the kinds of change, cycled - every second staged case changes
     # constraint entries (one at a time), the others the optimiser / scheduler / batch / loss / reset / device settings
-    from ..c05_stage import CONS_KINDS, OTHER_KINDS, gen_stage
+    from ..c05_stage import CONS_KINDS, OTHER_KINDS, gen_stage, CONS1_ENTRIES, gen_cons1
     cons_kinds, other_kinds = cyc(CONS_KINDS), cyc(OTHER_KINDS)
     r7_shift, n_staged = r.randrange(0, 3), 0
+    # round 8: stage-1 constraint dictionaries with NON-DEFAULT values of every entry (5 of every 13 generated cases; 13 is
+    # coprime with the lengths of all the other cycles); the entry that is certainly present is cycled through all entries of
+    # all three models; the continuation relies on the constraints being carried over (no `constraints=`), passes the same
+    # dictionaries again with every call, or (a staged case) changes one entry and relies on the others
+    cons1_focus = cyc(CONS1_ENTRIES)
+    r8_shift, n_cons1 = r.randrange(0, 13), 0
     for i in range(n_gen):
         n = r.choice([2, 3, 4, 5] if ctx.quick else [1, 2, 3, 4, 5, 6, 8])
         k = r.choice([0, n, r.randint(0, n), r.randint(1, max(1, n - 1)), r.randint(1, max(1, n - 1))])
@@ -299,6 +336,11 @@ def gen_cases(ctx: Ctx):
             case["reset_last"] = True
         if any(a in META for a in atoms_of(case)):
             cfg.pop("rich_constraints", None)
+        if (i + r8_shift) % 13 in (0, 2, 5, 7, 10):
+            cfg.pop("rich_constraints", None)           # (a fixed member of the family below)
+            cfg["cons1"] = gen_cons1(r, cfg, cons1_focus[n_cons1 % len(cons1_focus)])
+            if any(a in META for a in atoms_of(case)):
+                cfg["cons1"].pop("dataset", None)       # (the dataset is supplied again at load time: see the assumptions)
         if (i + r7_shift) % 3 == 0:
             if case["k"] >= n:                      # a continuation call that iterates
                 case["k"] = k = r.randint(0, n - 1)
@@ -321,6 +363,17 @@ def gen_cases(ctx: Ctx):
             if n_staged % 4 in (0, 3):
                 case["blind"] = True
             n_staged += 1
+        if cfg.get("cons1") is not None:
+            st_obj = dict(cfg.get("obj_constraints") or {})
+            for ch_ in case.get("stage", []):
+                st_obj.update(ch_.get("constraints", {}).get("object", {}))
+            if cfg["cons1"].get("object", {}).get("butterworth_order") == 0 and any(
+                    k_ in st_obj for k_ in ("q_lowpass", "q_highpass", "butterworth_order")):
+                cfg["cons1"]["object"].pop("butterworth_order")     # order 0 only while no Butterworth filter is active
+            if not case.get("stage") and n_cons1 % 2 == 1:
+                n_calls = len(case.get("more", [])) + 1
+                case["stage"] = [{"kind": "cons/repass_stage1", "constraints": T_constraints(cfg)} for _ in range(n_calls)]
+            n_cons1 += 1
         if any(a in SAVING for a in atoms_of(case)):
             n_saving += 1
             j5 = n_saving + r5_shift
@@ -616,6 +669,8 @@ def describe(case):
         extra += " reset_last"
     if case.get("prior"):
         extra += " target_holds_earlier_checkpoint=%s(%s)" % (case["prior"]["kind"], case["prior"].get("form", "str"))
+    if c.get("cons1"):
+        extra += " stage1_constraints=%s" % json.dumps(c["cons1"], sort_keys=True)
     if c.get("obj_constraints"):
         extra += " stage1_object_constraints=%s" % json.dumps(c["obj_constraints"], sort_keys=True)
     if case.get("stage"):
@@ -676,7 +731,14 @@ def run(ctx: Ctx):
         "filter that stage 1 made active: switched on / off / one parameter altered; tv weights; fov mask; slices / potential entries; probe "
         "and dataset entries), several entries, optimiser type, learning rates, one more optimised model, a subset, one optimiser off, the "
         "scheduler alone or with the optimisers, a full-batch batch size (N, N+3, 4N), the loss type, explicit reset=False, device; half of "
-        "the staged cases BLIND (nothing read from any object between the checkpoint and the next call); 29 fixed corpus cases first, then a seeded stream cycling "
+        "the staged cases BLIND (nothing read from any object between the checkpoint and the next call); round 8: STAGE-1 CONSTRAINT DICTIONARIES WITH "
+        "NON-DEFAULT VALUES of every entry - in about 38% of the generated cases (5 of every 13) + 2 corpus cases the first call sets, on the "
+        "object, the probe and the dataset, a random subset of ALL entries of the three DEFAULT_CONSTRAINTS (one entry, cycled through all "
+        "19, certainly present) to non-default values that flip the truthiness of the default wherever possible: False / 0 / 0.0 over a truthy "
+        "default (positivity, fix_potential_baseline_factor, butterworth_order while no filter is active, orthogonalize_probe, "
+        "clip_scan_positions), True / 1 / a positive weight or radius over a falsy one (False, 0, 0.0, None); the continuation relies on "
+        "them being carried over (no constraints argument), passes the same dictionaries again with every call, or changes one setting and "
+        "relies on the rest; the constraint dictionaries are compared model by model and entry by entry; 31 fixed corpus cases first, then a seeded stream cycling "
         "through every value of every dimension.  Distinct by (configuration, n, k, via, more); non-trivial when "
         "0 < k < n and at least one optimiser keeps per-parameter state or a scheduler is attached.")
     ctx.assumptions += [
@@ -747,6 +809,20 @@ def run(ctx: Ctx):
                 ctx.dist(f_)
         if case.get("reset_last"):
             ctx.dist("continuation_with_reset")
+        if cfg.get("cons1"):
+            from ..c05_stage import cons1_flips
+            ctx.dist("stage1_nondefault_constraints")
+            for m_, d_ in sorted(cfg["cons1"].items()):
+                for k_ in sorted(d_):
+                    ctx.dist("stage1_nondefault_constraints/entry=%s.%s" % (m_, k_))
+            for f_ in cons1_flips(cfg["cons1"]):
+                ctx.dist("stage1_nondefault_constraints/flips_truthiness=%s" % f_.split("=")[0])
+            if any(f_.endswith("=falsy(default truthy)") for f_ in cons1_flips(cfg["cons1"])):
+                ctx.dist("stage1_nondefault_constraints/some_entry_falsy_over_truthy_default")
+            kinds_ = {ch_.get("kind") for ch_ in case.get("stage", []) if ch_}
+            ctx.dist("stage1_nondefault_constraints/continuation=%s" % (
+                "carried_over(no_constraints_argument)" if not kinds_ else
+                "passed_again" if kinds_ == {"cons/repass_stage1"} else "one_setting_changed_others_carried_over"))
         if case.get("stage"):
             ctx.dist("staged")
             ctx.dist("staged/%s" % ("blind(nothing_read_between_checkpoint_and_next_call)" if case.get("blind") else "observed"))
